@@ -1,5 +1,6 @@
 import AikenVerif.Model.Wire
 import AikenVerif.Model.Match
+import AikenVerif.Model.ListSwitch
 /-!
 driver `match` (C07).  Fields are s-expressions (re-joined from the argument list):
 
@@ -15,6 +16,8 @@ requests
   `missing sig (row*) n`    → `(row*)`
   `first sig (spat*) val`   → `none` | `some i ((x val)*)`
   `tree k sig (pat*) val`   → `none` | `some i`   decision tree built with column heuristic number k
+  `listswitch fixed|unfixed (shape*) L` → `(i*)`  clause indexes of the sub-matrix a list of length L is
+                              dispatched to; shape ::= _ | (l n) | (t n)   (wildcard, `[n items]`, `[n items, ..]`)
 -/
 namespace AikenVerif.Drivers.Match
 open AikenVerif AikenVerif.Match
@@ -121,8 +124,21 @@ def heuristic (k : Nat) (M : IMatrix) : Nat :=
     (List.range width).foldl (fun best j => if score j > score best then j else best) 0
   | _ => (k / 4 + IMatrix.nodes M) % (width + 1)
 
+def shapeOf : Sexp → Option ListSwitch.LCase
+  | .atom "_" => some .wild
+  | .list [.atom "l", .atom n] => n.toNat?.map .list
+  | .list [.atom "t", .atom n] => n.toNat?.map .tail
+  | _ => none
+
 def handle (args : List String) : String :=
   match Sexp.parseAll (" ".intercalate args) with
+  | some [.atom "listswitch", .atom which, .list shapes, .atom l] =>
+    match shapes.mapM shapeOf, l.toNat? with
+    | some ss, some l =>
+      let rows : List ListSwitch.Row := ss.zipIdx
+      let out := if which == "fixed" then ListSwitch.dispatchFixed rows l else ListSwitch.dispatchUnfixed rows l
+      "(" ++ " ".intercalate (out.map toString) ++ ")"
+    | _, _ => "bad-request"
   | some [.atom "check", sg, .list ps] =>
     match sigOf sg with
     | some sg => match ps.mapM (patOf sg) with
